@@ -192,7 +192,7 @@ def formkids(rng, f, v11):
             f['pronunciations'] = prons
 
 
-def gen_extension(rng, base, xid, version, lmfv='1.1'):
+def gen_extension(rng, base, xid, version, lmfv='1.1', new_forms=False):
     """An extension of lexicon description [base] using the documented patterns."""
     ext = {'id': xid, 'label': 'Ext ' + xid, 'language': base['language'], 'email': 'a@b.c', 'license': 'CC',
            'version': version, 'meta': meta(rng), 'extends': {'id': base['id'], 'version': base['version']},
@@ -229,6 +229,11 @@ def gen_extension(rng, base, xid, version, lmfv='1.1'):
                 if len(xf) > 2:
                     xforms.append(xf)
         if xforms:
+            xe['forms'] = xforms
+        if new_forms and rng.random() < 0.7:
+            # a new (non-external) form on the external entry: outside C01's documented patterns, but it is
+            # something the extension contributes (C04, C05, C09)
+            xforms.append({'writtenForm': rng.choice(['extform', 'runned', 'catz']), 'id': '%s-%s-nf' % (xid, e['id'])})
             xe['forms'] = xforms
         xsenses = []
         for s in e.get('senses', []):
@@ -315,7 +320,7 @@ def gen_extension(rng, base, xid, version, lmfv='1.1'):
     return ext
 
 
-def gen_universe(rng, size=4, with_ext=True):
+def gen_universe(rng, size=4, with_ext=True, ext_forms=False, force=None):
     """A list of (name, resource) in an order in which they can be added."""
     ilis = ['i%d' % i for i in range(1, 8)]
     lmfv = lambda: rng.choice(['1.0', '1.1', '1.1', '1.3'])      # noqa
@@ -323,19 +328,20 @@ def gen_universe(rng, size=4, with_ext=True):
     v = lmfv()
     b1 = gen_lexicon(rng, 'ba', '1', 'en', ilis, v, size)
     out.append(('ba:1', {'lmf_version': v, 'lexicons': [b1]}))
-    if rng.random() < 0.7:
+    force = force or set()
+    if rng.random() < 0.7 or 'dep' in force:
         v = rng.choice(['1.1', '1.3'])
-        req = [{'id': 'ba', 'version': '1'}] if rng.random() < 0.6 else None
+        req = [{'id': 'ba', 'version': '1'}] if (rng.random() < 0.6 or 'dep' in force) else None
         if req and rng.random() < 0.3:
             req.append({'id': 'missing', 'version': '9', 'url': 'http://nowhere'})
         b2 = gen_lexicon(rng, 'bb', '1', rng.choice(['en', 'fr']), ilis, v, size, requires=req)
         out.append(('bb:1', {'lmf_version': v, 'lexicons': [b2]}))
-    if rng.random() < 0.4:
+    if rng.random() < 0.4 or 'v2' in force:
         v = lmfv()
         b1b = gen_lexicon(rng, 'ba', '2', 'en', ilis, v, size)      # second version, same ids
         out.append(('ba:2', {'lmf_version': v, 'lexicons': [b1b]}))
-    if with_ext and rng.random() < 0.75:
-        x1 = gen_extension(rng, b1, 'xa', '1')
+    if with_ext and (rng.random() < 0.75 or 'ext' in force):
+        x1 = gen_extension(rng, b1, 'xa', '1', new_forms=ext_forms)
         out.append(('xa:1', {'lmf_version': '1.1', 'lexicons': [x1]}))
         if rng.random() < 0.3:
             merged = copy.deepcopy(x1)
